@@ -393,4 +393,113 @@ theorem structType0L_ok {g : In} (hg : wsOnly g = true) (k : Nat) (rest : In) :
   simp only []
   rw [wsF_plain hp, litB1 41 rest]
 
+/-! ### the induction -/
+
+theorem tyIHL_step (F : Nat) (ih : TyIHL F) (t : Ty) (s rest : In) (ht : TyL t s)
+    (hm : M t ≤ F) (hs : stopTyG rest) : varlinkType (F + 1) (s ++ rest) = .ok t rest := by
+  have prim : ∀ (p : In) (ty : Ty), alphaHead p = true → primitive (p ++ rest) = .ok ty rest → 1 ≤ F →
+      varlinkType (F + 1) (p ++ rest) = .ok ty rest := by
+    intro p ty hp hprim h1
+    obtain ⟨f, rfl⟩ : ∃ f, F = f + 1 := ⟨F - 1, by omega⟩
+    have ha := alphaHead_append rest hp
+    have h63 : (p ++ rest).head? ≠ some 63 := by
+      cases p with
+      | nil => simp [alphaHead] at hp
+      | cons c tl => simp only [alphaHead] at hp; simp only [List.cons_append, List.head?_cons, ne_eq, Option.some.injEq]; bytes
+    rw [varlinkType_not_opt _ _ h63, nonOptional_alpha _ _ ha, elementType_prim f _ _ _ hprim]
+  cases ht with
+  | bool => exact prim _ _ (by decide) (primitive_ok_bool rest) (by simpa [M] using hm)
+  | int => exact prim _ _ (by decide) (primitive_ok_int rest) (by simpa [M] using hm)
+  | float => exact prim _ _ (by decide) (primitive_ok_float rest) (by simpa [M] using hm)
+  | string => exact prim _ _ (by decide) (primitive_ok_string rest) (by simpa [M] using hm)
+  | object => exact prim _ _ (by decide) (primitive_ok_object rest) (by simpa [M] using hm)
+  | custom hn =>
+    obtain ⟨c, tl, e, hc⟩ := typeNameOK_head hn
+    obtain ⟨f, rfl⟩ : ∃ f, F = f + 1 := ⟨F - 1, by simp [M] at hm; omega⟩
+    have ha : alphaHead (s ++ rest) = true := by rw [e]; simp only [List.cons_append, alphaHead]; bytes
+    have h63 : (s ++ rest).head? ≠ some 63 := by
+      rw [e]; simp only [List.cons_append, List.head?_cons, ne_eq, Option.some.injEq]; bytes
+    rw [varlinkType_not_opt _ _ h63, nonOptional_alpha _ _ ha, elementType]
+    have hp : primitive (s ++ rest) = .err (s ++ rest) := by
+      rw [e]; exact primitive_not_lower c _ ⟨by bytes, by bytes, by bytes, by bytes, by bytes⟩
+    rw [hp]
+    simp only []
+    rw [typeName_complete s rest hn (punctHead_notAlnum hs.punct)]
+  | @optional t' s' hno ht' =>
+    obtain ⟨f, rfl⟩ : ∃ f, F = f + 1 := ⟨F - 1, by simp [M] at hm; omega⟩
+    have hm' : M t' ≤ f := by simp [M] at hm; omega
+    obtain ⟨c, tl, e, _, h63⟩ := ht'.head
+    have h63' : (s' ++ rest).head? ≠ some 63 := by
+      rw [e]; simpa using h63 hno
+    have := ih f (by omega) t' s' rest ht' hm' hs
+    rw [varlinkType_not_opt _ _ h63'] at this
+    exact varlinkType_opt f _ _ _ this
+  | @array t' s' ht' =>
+    obtain ⟨f, rfl⟩ : ∃ f, F = f + 2 := ⟨F - 2, by simp [M] at hm; omega⟩
+    have hm' : M t' ≤ f := by simp [M] at hm; omega
+    have e : 91 :: 93 :: s' ++ rest = ([91, 93] : In) ++ (s' ++ rest) := by simp
+    rw [e, varlinkType_not_opt _ _ (by simp)]
+    unfold nonOptional
+    rw [arrayType, litB_append [91, 93] _]
+    simp only []
+    rw [ih f (by omega) t' s' rest ht' hm' hs]
+  | @map t' s' ht' =>
+    obtain ⟨f, rfl⟩ : ∃ f, F = f + 2 := ⟨F - 2, by simp [M] at hm; omega⟩
+    have hm' : M t' ≤ f := by simp [M] at hm; omega
+    have e : ([91, 115, 116, 114, 105, 110, 103, 93] : In) ++ s' ++ rest
+        = ([91, 115, 116, 114, 105, 110, 103, 93] : In) ++ (s' ++ rest) := by simp
+    rw [e, varlinkType_not_opt _ _ (by simp)]
+    unfold nonOptional
+    have ha : arrayType (f + 2) (([91, 115, 116, 114, 105, 110, 103, 93] : In) ++ (s' ++ rest))
+        = .err (([91, 115, 116, 114, 105, 110, 103, 93] : In) ++ (s' ++ rest)) := by
+      rw [arrayType]
+      have : litB [91, 93] (([91, 115, 116, 114, 105, 110, 103, 93] : In) ++ (s' ++ rest))
+          = .err (([91, 115, 116, 114, 105, 110, 103, 93] : In) ++ (s' ++ rest)) := by
+        simp [litB, List.isPrefixOf]
+      rw [this]
+    rw [ha]
+    simp only []
+    rw [mapType, litB_append [91, 115, 116, 114, 105, 110, 103, 93] _]
+    simp only []
+    rw [ih f (by omega) t' s' rest ht' hm' hs]
+  | @enum v vs s' g0 hv hg0 hvs =>
+    obtain ⟨f, rfl⟩ : ∃ f, F = f + 5 := ⟨F - 5, by simp [M] at hm; omega⟩
+    have e : 40 :: (g0 ++ (v ++ s')) ++ rest = 40 :: ((g0 ++ (v ++ s')) ++ rest) := by simp
+    rw [e, varlinkType_not_opt _ _ (by simp), nonOptional_paren, elementType_paren, inlineType]
+    obtain ⟨er, her⟩ := structType_enum_errL hv hg0 hvs f rest
+    rw [← e, her]
+    simp only []
+    rw [enumTypeL_ok hv hg0 hvs (f + 2) rest]
+  | @struct0 g hg =>
+    obtain ⟨f, rfl⟩ : ∃ f, F = f + 5 := ⟨F - 5, by simp [M] at hm; omega⟩
+    have e : 40 :: (g ++ [41]) ++ rest = 40 :: ((g ++ [41]) ++ rest) := by simp
+    rw [e, varlinkType_not_opt _ _ (by simp), nonOptional_paren, elementType_paren, inlineType]
+    rw [← e, structType0L_ok hg f rest]
+  | @struct f' fs s1 s2 g0 hg0 hf hmr =>
+    obtain ⟨f, rfl⟩ : ∃ f, F = f + 5 := ⟨F - 5, by simp [M] at hm; omega⟩
+    have hm' : MF (f' :: fs) ≤ f := by simp [M] at hm; omega
+    have e : 40 :: (g0 ++ (s1 ++ s2)) ++ rest = 40 :: ((g0 ++ (s1 ++ s2)) ++ rest) := by simp
+    rw [e, varlinkType_not_opt _ _ (by simp), nonOptional_paren, elementType_paren, inlineType]
+    rw [← e, structTypeL_ok ih hg0 hf hmr (f + 2) rest (by omega) (by omega)]
+
+/-- **Types are read back from every layout**, for every fuel that covers the type -/
+theorem tyIHL_all : ∀ F, TyIHL F := by
+  intro F
+  induction F with
+  | zero => intro m hm; omega
+  | succ F ih =>
+    intro m hm t s rest ht hM hs
+    by_cases h : m < F
+    · exact ih m h t s rest ht hM hs
+    · have : m = F := by omega
+      subst this
+      exact tyIHL_step m ih t s rest ht hM hs
+
+theorem varlinkType_tyFuelL {t : Ty} {s : In} (ht : TyL t s) (z : In) (hz : stopTyG z) :
+    varlinkType (tyFuel (s ++ z)) (s ++ z) = .ok t z := by
+  have hf := tyFuel_okL ht z
+  obtain ⟨m, hm⟩ : ∃ m, tyFuel (s ++ z) = m + 1 := ⟨tyFuel (s ++ z) - 1, by omega⟩
+  rw [hm]
+  exact tyIHL_all (m + 1) m (by omega) t s z ht (by omega) hz
+
 end Idl
